@@ -538,6 +538,22 @@ def key_file_rule(ctx, rid, impl, method, name_param="key_name", dir_attr="keys_
             expected="every read of the key uses the same path", found=f"{len(paths)} different paths: {[repr(p)[:80] for p in paths]}")
 
 
+class _TypeOfMember(ast.NodeTransformer):
+    """type(<Enum class>.<member>) is the Enum class."""
+
+    def __init__(self, repo, m):
+        self.repo, self.m = repo, m
+
+    def visit_Call(self, node):
+        self.generic_visit(node)
+        if isinstance(node.func, ast.Name) and node.func.id == "type" and len(node.args) == 1 and not node.keywords \
+                and isinstance(node.args[0], ast.Attribute):
+            r = self.repo.resolve_expr(self.m, node.args[0].value)
+            if r and r[0] == "class" and node.args[0].attr in r[1].attrs:
+                return node.args[0].value
+        return node
+
+
 def cli_registrations(repo, m):
     """[(function, add_argument call node, positional arg ASTs, {keyword: AST})] for every option a command module registers: direct
     `parser.add_argument(...)` calls, calls through `functools.partial(parser.add_argument, **common)`, and calls inside a helper
@@ -642,11 +658,21 @@ def cli_registrations(repo, m):
                 dflt = f.node.args.defaults
                 for nm, d_ in zip(params[len(params) - len(dflt):], dflt):
                     mapping.setdefault(nm, d_)
-                for c, pos, kw, recv in own:
+                # locals of the helper assigned once from its parameters (enum_class = type(default)) are written out first
+                assigned = {}
+                for n_ in walk_no_nested(f.node):
+                    if isinstance(n_, ast.Assign) and len(n_.targets) == 1 and isinstance(n_.targets[0], ast.Name):
+                        assigned.setdefault(n_.targets[0].id, []).append(n_.value)
+                locals1 = {k_: v_[0] for k_, v_ in assigned.items() if len(v_) == 1 and k_ not in params and k_ not in partials}
+
+                def expand(t):
                     import copy as _copy
-                    pos2 = [Subst(mapping).visit(_copy.deepcopy(t)) for t in pos]
-                    kw2 = {k: Subst(mapping).visit(_copy.deepcopy(v)) for k, v in kw.items()}
-                    out.append((f, c, pos2, kw2, Subst(mapping).visit(_copy.deepcopy(recv))))
+                    t = _copy.deepcopy(t)
+                    for _ in range(2):
+                        t = Subst({k_: _copy.deepcopy(v_) for k_, v_ in locals1.items()}).visit(t)
+                    return _TypeOfMember(repo, m).visit(Subst(mapping).visit(t))
+                for c, pos, kw, recv in own:
+                    out.append((f, c, [expand(t) for t in pos], {k: expand(v) for k, v in kw.items()}, expand(recv)))
         else:
             for c, pos, kw, recv in own:
                 out.append((f, c, pos, kw, recv))
@@ -1163,6 +1189,28 @@ KMS_KEY_KINDS = (("EllipticCurvePrivateKey", 256), ("EllipticCurvePrivateKey", 3
 KMS_ALGORITHMS = ("es-256", "es-384", "es-521", "eddsa", "hash-eddsa")
 
 
+KMS_ROUTINE_NAMES = {"es": "_create_cose_es_signature", "ed": "_create_cose_ed_signature", "prehashed": "_create_cose_ed_prehashed_signature"}
+
+
+def kms_routines(impl):
+    """The three signing routines of a KMS class by role, whatever they are called: {'es' | 'ed' | 'prehashed': FuncInfo}.  A routine
+    is a private method that calls .sign(...) on something; ECDSA: it names ECDSA / decodes a DSS signature; prehashed EdDSA: it
+    builds a SHA-512 / an eddsa object; pure EdDSA: neither."""
+    out = {}
+    for n, f in impl.methods.items():
+        if not n.startswith("_") or n.startswith("__"):
+            continue
+        calls_sign = any(isinstance(x, ast.Call) and isinstance(x.func, ast.Attribute) and x.func.attr == "sign" for x in ast.walk(f.node))
+        if not calls_sign:
+            continue
+        words = {x.attr for x in ast.walk(f.node) if isinstance(x, ast.Attribute)} | {x.id for x in ast.walk(f.node) if isinstance(x, ast.Name)}
+        role = "es" if words & {"ECDSA", "decode_dss_signature"} else ("prehashed" if words & {"SHA512", "eddsa"} else "ed")
+        if role in out:
+            raise AnalysisError(f"{impl.fq}: two signing routines of kind {role} ({out[role].name}, {n})")
+        out[role] = f
+    return out
+
+
 def kms_sign_table(ctx, impl):
     """Decision table of <KMS>.sign(): for every kind of loaded key and every algorithm string, what the call does - 'raise', or the
     name of the signing routine whose result is returned together with what it is given as data.  Private helpers of the class are
@@ -1172,10 +1220,14 @@ def kms_sign_table(ctx, impl):
     sg = impl.methods.get("sign")
     if sg is None:
         raise AnalysisError(f"anchor function {impl.fq}.sign vanished")
+    by_role = kms_routines(impl)
+    opaque = {f.name for f in by_role.values()}
     ev = Evaluator(ctx.repo, inline_depth=3, inline_filter=lambda f: f.cls is impl and f.name.startswith("_") and not f.name.startswith("__")
-                   and not f.name.startswith("_create_cose"))
+                   and f.name not in opaque)
+    ev.never_inline = {f.fq for f in by_role.values()}
     outs = ev.outcomes(sg)
-    routines = {n: (lambda *a, n_=n: (n_, a[1] if len(a) > 1 else None)) for n in impl.methods if n.startswith("_create_cose")}
+    # the table names the routines by their customary names, whatever they are called in this tree
+    routines = {f.name: (lambda *a, n_=KMS_ROUTINE_NAMES[r]: (n_, a[1] if len(a) > 1 else None)) for r, f in by_role.items()}
     terms = [c for o in outs for c in o.conds] + [o.value for o in outs if o.kind == "return"]
     isi = {s_ for t in terms for s_ in subterms(t) if isinstance(s_, App) and s_.op == "isinstance"}
     ksz = {s_ for t in terms for s_ in subterms(t) if isinstance(s_, App) and s_.op == "attr:key_size"}
@@ -1194,7 +1246,7 @@ def kms_sign_table(ctx, impl):
                 env[s_] = True
             res = None
             try:
-                for o in outs:
+                for o in sorted(outs, key=lambda o_: o_.kind != "raise"):  # a raise pre-empts the merged normal exit
                     try:
                         if not all(bool(teval(c, env)) for c in o.conds):
                             continue
@@ -1205,7 +1257,7 @@ def kms_sign_table(ctx, impl):
                         res = "raise"
                     else:
                         v = teval(o.value, env)
-                        res = v if isinstance(v, tuple) and v and v[0] in routines else ("?", repr(v)[:60])
+                        res = v if isinstance(v, tuple) and v and v[0] in KMS_ROUTINE_NAMES.values() else ("?", repr(v)[:60])
                     break
             except Raised:
                 res = "raise"
